@@ -50,6 +50,7 @@ pub fn build(a: &LensArgs) -> LensCfg {
         max_faults: a.faults,
         fault_kinds: a.fault_kinds,
         codes: 0,
+        seed_codes: 0,
         fin_menu: vec![0],
         drop_menu: vec![0],
         closure_menu: vec![0],
@@ -99,7 +100,7 @@ pub fn build(a: &LensArgs) -> LensCfg {
         "weakfin" => {
             cfg.name = "weakfin";
             cfg.codes = codes(&[New, Dup, Drop, Store, Take, Collect, Downgrade, Upgrade, DropWeak, StoreWeak, TakeWeak, TakeG, DropG, SetFin, SetDrop, TryUnwrap]);
-            cfg.fin_menu = a.fin_menu.clone().unwrap_or_else(|| vec![0, 6]);
+            cfg.fin_menu = a.fin_menu.clone().unwrap_or_else(|| vec![0, 6, 13]);
             cfg.drop_menu = a.drop_menu.clone().unwrap_or_else(|| vec![0, 1]);
         },
         "cyclic" => {
@@ -126,16 +127,31 @@ pub fn build(a: &LensArgs) -> LensCfg {
             cfg.drop_menu = a.drop_menu.clone().unwrap_or_else(|| vec![0, 2]);
             cfg.auto_lens = true;
         },
+        // Dynamic phase of a graph-seeded exploration: the heap shape comes from the seed family, the search only
+        // releases handles, collects, upgrades weaks and moves the global
+        "dyn" => {
+            cfg.name = "dyn";
+            cfg.codes = codes(&[Dup, Drop, Take, MarkAlive, Collect, TakeG, DropG, Upgrade, DropWeak, Clean, DropCleanable]);
+            cfg.seed_codes = codes(&[New, Dup, Store, Drop, Downgrade, StoreWeak, SetFin, SetDrop, Register]);
+            cfg.fin_menu = a.fin_menu.clone().unwrap_or_else(|| vec![0, 6]);
+            cfg.drop_menu = a.drop_menu.clone().unwrap_or_else(|| vec![0, 1]);
+            cfg.action_menu = a.action_menu.clone().unwrap_or_else(|| vec![]);
+        },
         "sat" => {
             cfg.name = "sat";
             cfg.codes = codes(&[New, Dup, Drop, Store, Collect, Downgrade, Upgrade, DupWeak, DropWeak, FillStrong, FillWeak, DropStash, CloneExpectPanic, DowngradeExpectPanic, UpgradeExpectPanic, DupWeakExpectPanic]);
         },
         other => panic!("unknown lens {}", other),
     }
+    if cfg.seed_codes == 0 {
+        cfg.seed_codes = cfg.codes;
+    }
     if !cfg!(feature = "weak") {
+        cfg.seed_codes &= !codes(&[Downgrade, StoreWeak]);
         cfg.codes &= !codes(&[Downgrade, Upgrade, DupWeak, DropWeak, StoreWeak, TakeWeak, WeakNew, NewCyclic, FillWeak, DowngradeExpectPanic, UpgradeExpectPanic, DupWeakExpectPanic]);
     }
     if !cfg!(feature = "cleaners") {
+        cfg.seed_codes &= !codes(&[Register]);
         cfg.codes &= !codes(&[Register, Clean, DropCleanable]);
     }
     if !cfg!(feature = "auto") {
